@@ -11,7 +11,11 @@ import fcorr
 import vlib
 
 META = {
-    "text": "Rocq theorems over the reals for ALL histories (any length, the three modes mixed arbitrarily), all gains and "
+    "text": "ON THE PRIMITIVE-FLOAT RUN (C12/PidFloat.v, 2 theorems): for finite output limits outmin <= outmax and ANY state, gains, "
+            "set-point and feedback (NaN and infinities included) a_pid_run_/pos_/inc_ at Coq's binary64 floats - the instance "
+            "compared bit for bit with the C - store a finite output within the limits, over every non-empty history; no overflow "
+            "hypothesis (state finiteness is not claimed there).  "
+            "Rocq theorems over the reals for ALL histories (any length, the three modes mixed arbitrarily), all gains and "
             "limits with outmin<=outmax, ki>=0, summin<=0<=summax: output within the limits after every step (induction over "
             "the history), parameters never changed, the positional integrator never moves further beyond a clamp once outside "
             "and overshoots by at most one increment over every history, positional/incremental outputs equal the documented "
